@@ -214,7 +214,7 @@ let handle_transmit_seq line toks =
   List.iter
     (fun (((dl, a), _), (_, r)) ->
       let k =
-        Printf.sprintf "X-%s%s-n%s%s" (if dl then "dl" else "nodl")
+        Printf.sprintf "X-%s%s-n%s%s%s" (if dl then "dl" else "nodl")
           (if dl && a.ans_deadline <> None then "-dlfail" else "")
           (hex_of_z a.ans_write_n) (if a.ans_write <> None then "e" else "")
           (match r with TxOk -> "-ok" | TxErr _ -> "-err" | TxPanic -> "-panic")
